@@ -437,8 +437,10 @@ def gen_catslice_table():
         if init_attr is None:
             raise Unsupported(f'{cls}.__getitem__: init_attr tuple not found')
         # attributes given a fresh copy in __getitem__: newcls.X = <expr>.copy() / list(..) / dict(..)
+        # (only UNCONDITIONAL statements of the method body count: a copy made under an `if` leaves the object shared on the other branch -
+        # seed C08-r9 copied the registry only when it was non-empty)
         copied = set()
-        for x in ast.walk(gi):
+        for x in gi.body:
             if isinstance(x, ast.Assign) and isinstance(x.targets[0], ast.Attribute) \
                     and isinstance(x.targets[0].value, ast.Name) and x.targets[0].value.id == 'newcls':
                 v = x.value
